@@ -24,7 +24,7 @@ PROOF_TEXT = {
  "C15": "Theorems: for every recognised opcode the disassembler's size equals the decoder's length (kernel-checked over both tables), hence the PC advance of a non-transfer step. Tie: all 512 rows x operands x addresses.",
  "C16": "Theorems: every template = opcode hex + operand holes + the mnemonic of the decoded instruction in the repository's notation (kernel-checked, 512 rows); templates are pairwise distinct; relative target hole = address + 2 + sext e. Tie: all rows x operand bytes x pair values x addresses.",
  "C17": "Theorems: the architectural outcome of a step is a function of the architectural state alone (diagnostic switches, stale text and slice counters do not enter); no request survives a non-halted step. Tie: twin implementation runs over all 16 switch sets and different prior histories.",
- "C18": "Theorems: timed step = plain step architecturally; a sleep request is returned exactly when the counter exceeds the budget; requested sleep <= slice duration; counter = sum of T-states since the last request (induction over histories). The f32 budget formula is covered by correspondence only.",
+ "C18": "Theorems: timed step = plain step architecturally; a sleep request is returned exactly when the counter exceeds the budget; requested sleep <= slice duration; counter = sum of T-states since the last request (induction over histories). The budget f x 1000 x d: exact integer theorem for f in eighths of a MHz; that the f32 code yields it is checked on the implementation for that grid x every d dividing 1000.",
  "C19": "Theorems: LDIR/LDDR = LDI/LDD iterated n times (n = BC, or 65,536 for 0), CPIR/CPDR = CPI/CPD iterated until match or BC = 0, by induction, any overlap/wrap/ROM. Tie: relation evaluated on the implementation (repeat vs single steps).",
  "C20": "Theorems: slice read returns exactly mem[start..end]; clear zeroes exactly those bytes; load copies the file at the origin, returns its length, leaves the rest; missing file = error value. Tie: all (start,end) of small buses, boundary pairs of large ones, files of every length.",
 }
